@@ -74,4 +74,6 @@ def Tree.height : Tree → Nat
   | .bin _ l r => max l.height r.height + 1
   | .hyb _ _ _ c => c.height + 1
 
+deriving instance DecidableEq for Except
+
 end Hctl
